@@ -44,9 +44,9 @@ RULE = ('per configuration (key type, key universe, source in fresh/literal/chai
         'non-trivial = distinct (configuration, pre-state, operation) where the operation writes, or reads a key that is '
         'bound on chain or was written before')
 BOUND = {'quick': 'key type int: |K|=2 and |K|=3, on-chain values {absent,2}, literal values {absent,0,1}, all 4 sources, '
-                  'closure (depth cap 6)',
+                  'closure (reached at depth <= 7; caps: depth 8, 300 states per configuration)',
          'thorough': 'key types int, string, pair int int, bytes, address: |K|=3, on-chain values {absent,0,2}, '
-                     'literal values {absent,0,1}, all 4 sources, closure (depth cap 8)'}
+                     'literal values {absent,0,1}, all 4 sources, closure (reached at depth <= 7; caps: depth 8, 300 states per configuration)'}
 ASSUMPTIONS = ['the canonical state (items, removed_keys as a set, ptr) determines the future behaviour of a BigMapType whose '
                'context tables are fixed per run; the order of removed_keys (hash order) only permutes diff entries',
                'lazy diffs are read as Tezos applies them: entries in order, a later entry for the same key wins; two '
@@ -57,6 +57,7 @@ LEVEL_TEXT = ('every history over a 3-key universe reaches one of finitely many 
               'every split of the keys between chain and local layer, so within the alphabet the agreement with the layered '
               'dictionary is decided, not sampled')
 
+STATE_CAP = 300       # per configuration; a correct implementation has at most 4^|K| = 64 states
 CHAIN_ID = 7          # id of the on-chain big_map
 VT = ('nat',)
 VALS = [0, 1]
@@ -87,7 +88,7 @@ def configs(tier):
     out = []
     if tier == 'quick':
         plan = [('int', 2, [None, 2]), ('int', 3, [None, 2])]
-        cap = 6
+        cap = 8
     else:
         plan = [(kt, 3, [None, 0, 2]) for kt in KEYTYPES]
         cap = 8
@@ -420,10 +421,11 @@ def explore(cfg, r: Result, tier):
     r.sample(case0)
     frontier = [] if vs else [(w.bm, ref0, [])]
     depth = 0
+    nstates = 1
     last_case = case0
     while frontier:
-        if depth >= cfg['cap']:
-            r.cap(f'depth cap {cfg["cap"]} reached with {len(frontier)} unexpanded states ({cfg_key})')
+        if depth >= cfg['cap'] or nstates > STATE_CAP:
+            r.cap(f'cap reached (depth {depth}, {nstates} states) with unexpanded states: configuration {cfg_key}')
             break
         depth += 1
         nxt = []
@@ -459,6 +461,7 @@ def explore(cfg, r: Result, tier):
                 st_key = (cfg_key, ref2.canon(), w.canon(bm2))
                 if not r.state(st_key):
                     continue
+                nstates += 1
                 vs, canon2, _ = check_state(cfg, h2, desc, want_e2e=True)
                 r.traces += 1 + (cfg['source'] != 'copy')
                 if canon2[:3] != w.canon(bm2)[:3]:
